@@ -166,8 +166,9 @@ Proof.
   rewrite alookup_aset_other in Lc0 by exact Hne. rewrite Lc in Lc0; injection Lc0 as <-.
   pose proof (not_max_live meta s old c I Lc Rv) as Rc.
   match goal with |- Inv ?st => set (s' := st) end.
-  assert (G : forall y, cache_get s' y = if y =? new then cache_get s old else cache_get s y)
-    by (apply cache_get_upd; reflexivity).
+  assert (G : forall y, cache_get s' y =
+            if y =? old then [] else if y =? new then cache_get s old else cache_get s y)
+    by (apply cache_get_renew1; reflexivity).
   match goal with s' := set_cache (set_dbs s (set_t1 _ ?tt)) _ |- _ => set (t' := tt) in * end.
   destruct (renew_lookup (t1 (dbs s)) old new (with_to (with_rev c crev cfsize cmroot) (Some new))
               {| rev := nrev; fsize := nfsize; cap := 0; mroot := nmroot; wstart := nws; expi := 0;
@@ -180,20 +181,25 @@ Proof.
            rk := 0; hk := 0; rto := None; rfrom := None; rows := [] |} t');
       [exact (inv_t1 meta s I)|exact Hne|exact Ln1|exact Lc|exact Rc|reflexivity|reflexivity|reflexivity
       |intros _; cbn [with_to with_rev rev]; lia|reflexivity|cbn [fsize]; lia|cbn [mroot]; lia|reflexivity]].
-    intros y cy _ _. unfold gset. now rewrite G.
+    intros y cy Ly Ry. unfold gset. rewrite G. destruct (y =? old) eqn:Eo; [|reflexivity].
+    (* the row of [old] is the renewed one: it is not live *)
+    rewrite LK, Eo in Ly. injection Ly as <-. cbn [with_rows with_to rto] in Ry. discriminate.
   - eapply tab_ok_ext; [|exact (inv_t2 meta s I)].
-    intros y cy Ly _. rewrite G. destruct (y =? new) eqn:Ey; [|reflexivity].
+    intros y cy Ly _. rewrite G. destruct (y =? old) eqn:Eo.
+    { apply N.eqb_eq in Eo; subst y. rewrite (inv_disj meta s I old) in Ly by congruence. discriminate. }
+    destruct (y =? new) eqn:Ey; [|reflexivity].
     apply N.eqb_eq in Ey; subst y. congruence.
   - intros y Hy. rewrite LK in Hy. destruct (y =? old) eqn:E1.
     + apply N.eqb_eq in E1; subst y. apply (inv_disj meta s I). congruence.
     + destruct (y =? new) eqn:E2; [apply N.eqb_eq in E2; now subst y|now apply (inv_disj meta s I)].
-  - intros y Hy. rewrite alookup_aset in Hy. rewrite LK.
-    destruct (y =? old) eqn:E1; [left; discriminate|].
+  - intros y Hy. rewrite alookup_cdel in Hy. rewrite LK.
+    destruct (y =? old) eqn:E1; [left; discriminate|]. rewrite alookup_aset in Hy.
     destruct (y =? new) eqn:E2; [left; discriminate|]. now apply (inv_cdom meta s I).
   - intros u x L. cbn [s' upds dbs set_dbs set_cache set_t1 t1] in *. rewrite G.
     destruct (inv_upd meta s I u x L) as ((c1 & Lc1 & Rc1) & G2 & G3 & G4).
     assert (Hn1 : u_cid x <> old) by now apply (Hno u x).
     assert (Hn2 : u_cid x <> new) by congruence.
+    replace (u_cid x =? old) with false by lia.
     replace (u_cid x =? new) with false by lia. repeat split; auto.
     exists c1. split; [|exact Rc1]. rewrite LK.
     replace (u_cid x =? old) with false by lia. replace (u_cid x =? new) with false by lia. exact Lc1.
